@@ -40,8 +40,12 @@ TTc ==
                                !.crashes = @ + (IF e.crash # "" THEN 1 ELSE 0)]
   /\ l' = l + 1 /\ UNCHANGED tc
 
+\* a request that names a content type nobody registered and whose Accept admits no registered type either has no
+\* codec for its reply: whatever error it gets is not C04's business
+NoCodecAtAll(e) == e.reqct \notin Offers /\ Admitted(e.accept) = {}
 JudgeResp(e) ==
   IF e.crash # "" THEN {"ResponseDecodable"}
+  ELSE IF NoCodecAtAll(e) THEN {}
   ELSE IF e.status # 200 THEN {"ResponseDecodable"}
   ELSE (IF e.kind # "httpbody" /\ e.ct \notin AllowedResponseTypes(e.accept, e.reqct) THEN {"AcceptAdmits"} ELSE {})
        \cup (IF ~e.decoded THEN {IF e.kind = "httpbody" THEN "HttpBodyRaw" ELSE IF e.respbody # "" THEN "ResponseBodySelects" ELSE "ResponseDecodable"} ELSE {})
